@@ -48,6 +48,7 @@ type stxn struct {
 	Value      uint64    `json:"value,omitempty"`       // tokens sent with the call
 	TimeOffset int64     `json:"time_offset,omitempty"` // creation date = scenario base time + offset (seconds)
 	Mint       *mintSpec `json:"mint,omitempty"`        // zcnsc mint: the payload is built and signed by the worker
+	Probe      bool      `json:"probe,omitempty"`       // fan-in scenarios: a request naming one failing item twice (what that item gives on its own)
 }
 
 // zcnsc mint of Amount to the sender with the given nonce, signed by the listed authorizers (1-based).
@@ -93,6 +94,7 @@ type result struct {
 	// Repeat > 0: per transaction of the last block the distinct (status, output, events) outcomes of the
 	// repeated executions on the same state, with their counts
 	Variants []map[string]int `json:"variants,omitempty"`
+	Outputs  []map[string]int `json:"outputs,omitempty"` // the same by transaction output only
 }
 
 var scAddr = map[string]string{"faucet": faucetsc.ADDRESS, "miner": minersc.ADDRESS, "storage": storagesc.ADDRESS,
@@ -219,7 +221,7 @@ func runWorker(scn scenario) result {
 		txn.TransactionType = transaction.TxnTypeSmartContract
 		txn.SmartContractData = &transaction.SmartContractData{}
 		txn.CreationDate = common.Timestamp(base + t.TimeOffset)
-		in := idSubst.Replace(t.Input)
+		in := strings.ReplaceAll(idSubst.Replace(t.Input), "$round", fmt.Sprint(b.Round))
 		if t.Mint != nil {
 			p := &zcnsc.MintPayload{EthereumTxnID: fmt.Sprintf("0xeth%d", t.Mint.Nonce), Amount: currency.Coin(t.Mint.Amount), Nonce: t.Mint.Nonce, ReceivingClientID: from}
 			toSign := p.GetStringToSign()
@@ -309,7 +311,7 @@ func runWorker(scn scenario) result {
 			if scn.Repeat > 0 && bi == len(scn.Blocks)-1 {
 				// the same transaction on the same state, many times: every outcome must be the same
 				runtime.GOMAXPROCS(16)
-				vs := map[string]int{}
+				vs, outs := map[string]int{}, map[string]int{}
 				for k := 0; k < scn.Repeat; k++ {
 					seq0, n0 := seq, map[string]int64{}
 					for a, v := range nonce {
@@ -320,8 +322,10 @@ func runWorker(scn scenario) result {
 					r := exec(b, fbc, t)
 					cur, seq, nonce = mpt, seq0, n0
 					vs[fmt.Sprintf("%v/%d/%s/%s/%s|%s", r.Applied, r.Status, r.Err, r.Panic, r.Output, strings.Join(r.Events, ","))]++
+					outs[r.Output]++
 				}
 				res.Variants = append(res.Variants, vs)
+				res.Outputs = append(res.Outputs, outs)
 			}
 			trs = append(trs, exec(b, bc, t))
 		}
